@@ -653,32 +653,35 @@ Proof.
     rewrite (Hd eq_refl). eexists; reflexivity. }
   destruct Hi as [x Hi].
   destruct (post_shape cd c res (skipn (length A + 1) h) s3 x Hi) as [a [rm [Eq _]]].
-  exists res. unfold plan_out, run_full, plan_ops. rewrite E, Eq. cbn [fst snd]. split; [reflexivity|].
+  exists res. unfold plan_out, run_full, plan_ops. rewrite E, Eq. cbn [fst snd]. split; [reflexivity|]. split; [|reflexivity].
   rewrite exec_app. rewrite exec_app. change (exec [OW Marker (Full Plain)] (exec A s)) with s3.
   apply (post_safe cd c g res (skipn (length A + 1) h) s3 x _ Z3 Hc Hi Eq).
 Qed.
 
 (* C06_resume: from every reachable, recoverable state an uninterrupted run ends with a complete stored result *)
 Lemma resume cd c tag h s :
-  Inv cd c s -> recoverable cd c s ->
-  exists r, plan_out cd c tag h s = inr r /\ stored c (r_tag r) (run_full cd c tag h s).
+  Inv cd c s -> recoverable cd c s -> sane c ->
+  exists r, plan_out cd c tag h s = inr r /\ stored c (r_tag r) (run_full cd c tag h s)
+            /\ (r_samples r = Some (r_tag r) \/ r_samples r = expected_samples c (r_tag r)).
 Proof.
-  intros HI [Hz [R1 R2]]. unfold Inv in HI. unfold eff_dir in R1, R2.
+  intros HI [Hz [R1 R2]] Hsane. unfold Inv in HI. unfold eff_dir in R1, R2.
   destruct (fz s) as [| |snap] eqn:Z.
   - destruct HI as [[[M|M] Hcsv] [Hm Hd]].
-    + destruct (R2 M) as [A [B [C D]]]. apply fresh_resume; try assumption.
-      split; [exact Z|]. split; [exact M|]. split; [split; [left; exact M | exact Hcsv] | exact Hd].
+    + destruct (R2 M) as [A [B [C D]]].
+      destruct (fresh_resume cd c tag h s) as [r [P [Q T]]]; try assumption.
+      { split; [exact Z|]. split; [exact M|]. split; [split; [left; exact M | exact Hcsv] | exact Hd]. }
+      exists r. split; [exact P|]. split; [exact Q | left; exact T].
     + destruct (Hm M) as [g Hc].
       destruct (complete_once cd c tag h s g) as [A [_ B]].
       * unfold stored. rewrite Z. exact Hc.
       * unfold eff_dir. rewrite Z. apply R1. exact M.
-      * eexists. split; [exact A | exact B].
+      * eexists. split; [exact A|]. split; [exact B | right; reflexivity].
   - contradiction.
   - destruct HI as [_ [_ [[g Hc] _]]].
     destruct (complete_once cd c tag h s g) as [A [_ B]].
     + unfold stored. rewrite Z. exact Hc.
     + unfold eff_dir. rewrite Z. apply R1. destruct Hc as [M _]. exact M.
-    + eexists. split; [exact A | exact B].
+    + eexists. split; [exact A|]. split; [exact B | right; reflexivity].
 Qed.
 
 (* with all four repairs every reachable state is recoverable *)
@@ -696,12 +699,18 @@ Proof.
 Qed.
 
 (* the headline for the repaired code: whatever happened before, the next uninterrupted run succeeds *)
-Lemma resume_repaired c runs tag h :
+Lemma resume_repaired c runs tag h : sane c ->
   let s := history repaired c 0 runs empty_fs in
-  exists r, plan_out repaired c tag h s = inr r /\ stored c (r_tag r) (run_full repaired c tag h s).
+  exists r, plan_out repaired c tag h s = inr r /\ stored c (r_tag r) (run_full repaired c tag h s)
+            /\ (r_samples r = Some (r_tag r) \/ r_samples r = expected_samples c (r_tag r)).
 Proof.
-  intro s. apply resume; [apply inv_reachable | apply repaired_recoverable; apply inv_reachable].
+  intros Hs s. apply resume; [apply inv_reachable | apply repaired_recoverable; apply inv_reachable | exact Hs].
 Qed.
+
+(* maxiter = 0 is the one configuration the repaired code can not run: BFGS/LBFGS raises UnboundLocalError *)
+Lemma lbfgs_zero_updates_fails rm csv keep chk :
+  plan_out repaired (mkcfg LBFGS 0 rm csv keep chk) 0 [] empty_fs = inl UnboundLocal.
+Proof. destruct rm, csv, keep, chk; reflexivity. Qed.
 
 (* complete once, for every state the repaired code can reach *)
 Lemma complete_once_repaired c runs tag h g :
@@ -724,4 +733,48 @@ Lemma zipfix_no_partial cd c runs : fx_zip cd = true -> fz (history cd c 0 runs 
 Proof.
   intros F E. pose proof (inv_reachable cd c runs) as HI. unfold Inv in HI. rewrite E in HI.
   destruct HI as [_ HI]. congruence.
+Qed.
+
+(* ---------- the persisted search state of a completed fit is not replaced by a re-run ---------- *)
+Lemma plan_completed_eq cd c tag h s g :
+  fz s = ZAbsent -> complete c g (fd s) ->
+  plan_ops cd c tag h s = fst (post_ops cd c (mkres g (expected_samples c g) false) h s).
+Proof.
+  intros Hz Hc. unfold plan_ops. rewrite (plan_no_zip cd c tag h s Hz).
+  destruct (main_completed cd c tag g s Hc) as [Hp Hm]. rewrite Hp. cbn [exec fold_left]. rewrite Hm.
+  cbn [exec fold_left app length Nat.add skipn].
+  destruct (post_ops cd c _ h s) as [q [e|]]; reflexivity.
+Qed.
+
+Lemma post_keeps_dill cd c res h s x :
+  fz s = ZAbsent -> c_keep c = true -> r_internal res = false -> fd s Dill = Full x ->
+  eff_dir (exec (fst (post_ops cd c res h s)) s) Dill = Full x.
+Proof.
+  intros Hz Hk Hr Hd. unfold post_ops, internal_of. rewrite Hr, Hd, Hk. cbn [fst].
+  set (a := dill_write cd (Full x)). set (z := if fx_zip cd then [OZTW; OZMV] else [OZW]).
+  rewrite !exec_app.
+  assert (Ha : fd (exec a s) Dill = Full x) by (unfold a, dill_write; destruct (fx_dill cd); reflexivity).
+  assert (Hz2 : fz (exec z (exec a s)) = ZFull (fd (exec a s))) by (unfold z; destruct (fx_zip cd); reflexivity).
+  assert (Hz3 : fz (exec (if c_remove c then rm_ops (present (fd (exec a s))) (skipn (length a + length z) h) else [])
+                       (exec z (exec a s))) = ZFull (fd (exec a s))).
+  { destruct (c_remove c); [|exact Hz2]. destruct (exec_rm_ops_fz (present (fd (exec a s))) (skipn (length a + length z) h) (exec z (exec a s))) as [E _].
+    rewrite E. exact Hz2. }
+  unfold eff_dir. rewrite Hz3. exact Ha.
+Qed.
+
+(* C06_internal_kept *)
+Lemma completed_keeps_internal cd c tag h s g x :
+  stored c g s -> c_keep c = true -> eff_dir s Dill = Full x ->
+  eff_dir (run_full cd c tag h s) Dill = Full x.
+Proof.
+  unfold stored, run_full. destruct (fz s) as [| |snap] eqn:Hz; intros Hc Hk Hd.
+  - unfold eff_dir in Hd. rewrite Hz in Hd.
+    rewrite (plan_completed_eq cd c tag h s g Hz Hc). apply post_keeps_dill; auto.
+  - contradiction.
+  - unfold eff_dir in Hd. rewrite Hz in Hd.
+    destruct (once_zip cd c tag h s g snap Hz Hc) as [R [s1 [HR [Hs1 [Hz1 [Hc1 [Hd1 [_ E]]]]]]]].
+    unfold plan_ops. rewrite E.
+    pose proof (plan_completed_eq cd c tag (skipn (length R) h) s1 g Hz1 Hc1) as P. unfold plan_ops in P.
+    destruct (plan cd c tag (skipn (length R) h) s1) as [[ops1 out] sm]. cbn [fst] in *.
+    rewrite exec_app, <- Hs1, P. apply post_keeps_dill; auto. rewrite Hd1. exact Hd.
 Qed.
